@@ -1,12 +1,12 @@
 (* C03 — Only the key holder can authorise a transaction; no replay across chains.
    Property theorems only: each is closed by [exact <lemma>] and followed by
-   [Print Assumptions].  Model: Model/C03.v  Lemmas: Proofs/C03.v, Proofs/C03_Payload.v,
+   [Print Assumptions].  Model: Model/C03.v  Lemmas: Proofs/C03.v, Proofs/C03_Payload.v, Proofs/C03_Pool.v,
    Lib/C03_TLVFacts.v.  keccak, ECDSA recovery, pubkey->address, Schnorr verification and
    MuSig2 aggregation are universally quantified functions: unforgeability is NOT a theorem;
    the binding theorems conclude "equal signed fields or here is a collision of the
    primitives". *)
 From Coq Require Import List NArith ZArith Bool.
-From GQ Require Import Lib.C03_TLV Lib.C03_TLVFacts Generated.C03Params Model.C03 Proofs.C03_Payload Proofs.C03.
+From GQ Require Import Lib.C03_TLV Lib.C03_TLVFacts Generated.C03Params Model.C03 Proofs.C03_Payload Proofs.C03 Proofs.C03_Pool.
 Import ListNotations.
 Local Open Scope Z_scope.
 
@@ -267,6 +267,80 @@ Theorem qi_unchecked_ignores_signature_partial : forall (hash pub addr sig : Typ
 Proof. exact unchecked_ignores_signature. Qed.
 Print Assumptions qi_unchecked_ignores_signature_partial.
 
+(* ---------- the pool's senders cache and the cache-derived checkSig of block processing ---------- *)
+
+(* the checked verdict is exactly: the unchecked verdict (chain, every input owned, against the UTXO
+   set at hand) AND a part that depends on the transaction alone - every carried key parses and the
+   final key of exactly the carried keys verifies the signature over this payload.  The second part is
+   what checkSig = false skips and what an entry of the senders cache has to stand for. *)
+Theorem qi_checked_is_unchecked_and_signature : forall (hash pub addr sig : Type) H addr_of_pub addr_eqb in_qi_scope parse_ok agg verify
+    (outpoint : Type) utxo chain f oins sg,
+  qi_process hash pub addr sig H addr_of_pub addr_eqb in_qi_scope parse_ok agg verify outpoint utxo chain true f oins sg = QOk <->
+  (qi_process hash pub addr sig H addr_of_pub addr_eqb in_qi_scope parse_ok agg verify outpoint utxo chain false f oins sg = QOk
+   /\ qi_sig_ok hash pub sig H parse_ok agg verify f (map snd oins) sg = true).
+Proof. exact process_split. Qed.
+Print Assumptions qi_checked_is_unchecked_and_signature.
+
+(* for EVERY history of pool operations (adds of valid / refused / known transactions, single or in a
+   batch, removals, reorg re-injections with or without a cached fee) from any state satisfying it:
+   every hash in the senders cache and every hash with a cached fee belongs to a transaction whose
+   signature part holds - provided pool validation implies the signature part *)
+Theorem pool_cache_holds_only_verified_signatures : forall (pool_valid reinject_valid : N -> bool) proc_ok (sigok : N -> bool),
+  (forall i, pool_valid i = true -> sigok i = true) ->
+  (forall i, reinject_valid i = true -> sigok i = true) ->
+  forall ops st, pinv sigok st -> pinv sigok (pfinal pool_valid reinject_valid proc_ok st ops).
+Proof. exact pfinal_inv. Qed.
+Print Assumptions pool_cache_holds_only_verified_signatures.
+
+(* a refused add records nothing: every table is as before (no "seen" entry in the senders cache) *)
+Theorem refused_add_leaves_no_trace : forall (pool_valid reinject_valid : N -> bool) proc_ok st i,
+  pool_valid i = false -> pmem i (p_qp st) = false ->
+  pstep pool_valid reinject_valid proc_ok st (PAdd [i]) = (st, [2%N]).
+Proof. exact refused_add_changes_nothing. Qed.
+Print Assumptions refused_add_leaves_no_trace.
+
+(* block processing with checkSig := hash not in the senders cache, after ANY pool history starting from
+   the empty pool, at ANY later UTXO set: accepted => the fully checked verdict accepts (hence
+   qi_accept_iff_every_input_owned applies: every input owned, signature of exactly the carried keys).
+   The pool may have validated each transaction against any UTXO view of its own. *)
+Theorem block_check_with_pool_cache_accepts_only_authorised : forall (hash pub addr sig outpoint : Type) H addr_of_pub addr_eqb in_qi_scope parse_ok agg verify
+    chain (tf : N -> qfields) (tins : N -> list (outpoint * pub)) (tsg : N -> sig) (pool_valid reinject_valid : N -> bool) (proc0 : N -> bool -> bool),
+  (forall i, pool_valid i = true ->
+     exists utxo, qi_process hash pub addr sig H addr_of_pub addr_eqb in_qi_scope parse_ok agg verify outpoint utxo chain true (tf i) (tins i) (tsg i) = QOk) ->
+  (forall i, reinject_valid i = true ->
+     exists utxo, qi_process hash pub addr sig H addr_of_pub addr_eqb in_qi_scope parse_ok agg verify outpoint utxo chain true (tf i) (tins i) (tsg i) = QOk) ->
+  forall ops utxo' i,
+    qi_process hash pub addr sig H addr_of_pub addr_eqb in_qi_scope parse_ok agg verify outpoint utxo' chain
+      (negb (pmem i (p_cache (pfinal pool_valid reinject_valid proc0 p_empty ops)))) (tf i) (tins i) (tsg i) = QOk ->
+    qi_process hash pub addr sig H addr_of_pub addr_eqb in_qi_scope parse_ok agg verify outpoint utxo' chain true (tf i) (tins i) (tsg i) = QOk.
+Proof. exact qi_cached_checksig_sound. Qed.
+Print Assumptions block_check_with_pool_cache_accepts_only_authorised.
+
+(* the same on the observation the harness compares: a PProc step that reports "accepted" *)
+Theorem accepted_block_step_is_authorised : forall (pool_valid reinject_valid : N -> bool) proc_ok (sigok : N -> bool),
+  (forall i, pool_valid i = true -> sigok i = true) ->
+  (forall i, reinject_valid i = true -> sigok i = true) ->
+  (forall i, proc_ok i false = true -> sigok i = true -> proc_ok i true = true) ->
+  forall ops i c,
+    snd (pstep pool_valid reinject_valid proc_ok (pfinal pool_valid reinject_valid proc_ok p_empty ops) (PProc [i])) = [c; 1%N] -> proc_ok i true = true.
+Proof. exact proc_step_sound. Qed.
+Print Assumptions accepted_block_step_is_authorised.
+
+(* the "negative cache" variant of addQiTxs (NOT the code; Proofs/C03_Pool.v padd_one_neg: the hash of a
+   refused transaction is remembered in the senders cache) breaks it: a transaction whose signature is
+   invalid is refused by a block when never seen, refused by the pool, and then accepted by a block *)
+Theorem negative_sender_cache_refuted :
+  let pool_valid := fun _ : N => false in
+  let proc_ok := fun (_ : N) (cs : bool) => negb cs in
+  let st1 := fst (pstep_neg pool_valid proc_ok p_empty (PAdd [0%N])) in
+  proc_ok 0%N true = false
+  /\ snd (pstep pool_valid pool_valid proc_ok p_empty (PProc [0%N])) = [0%N; 0%N]
+  /\ snd (pstep_neg pool_valid proc_ok p_empty (PAdd [0%N])) = [2%N]
+  /\ snd (pstep_neg pool_valid proc_ok st1 (PProc [0%N])) = [1%N; 1%N]
+  /\ snd (pstep pool_valid pool_valid proc_ok (fst (pstep pool_valid pool_valid proc_ok p_empty (PAdd [0%N]))) (PProc [0%N])) = [0%N; 0%N].
+Proof. exact neg_cache_accepts_forged. Qed.
+Print Assumptions negative_sender_cache_refuted.
+
 (* ---------- non-vacuity ---------- *)
 
 Example sig_values_nonvacuous :
@@ -307,3 +381,15 @@ Example qi_repeated_key_nonvacuous :
   /\ x_qi 9000 false f [(a, Some ([0; 200; 1], true)); (a, Some ([0; 200; 2], true))] true true = QOwner
   /\ x_qi 9000 true f [(a, Some ([0; 200; 2], true)); (a, Some ([0; 200; 1], true))] true true = QOwner.
 Proof. vm_compute. repeat split. Qed.
+
+(* pool histories over a universe {0: owner-signed, 1: owner's key + foreign signature}: the forged one
+   is never cached and never accepted by a block, before or after the pool refused it / a reorg handed
+   it back; the valid one is cached after its add and then accepted unchecked *)
+Example qi_pool_nonvacuous :
+  let f := mkQi 9000 [] [] [] in
+  let a := ([0; 200; 1], true, true, Some [0; 200; 1]) in
+  let txs := [(f, [a], true, true, true, true); (f, [a], true, false, true, true)] in
+  map fst (prun (fun i => x_pool_active txs i && x_pool_ok 9000 txs true i) (x_pool_ok 9000 txs true) (fun i cs => x_pool_ok 9000 txs cs i) p_empty
+         [PProc [1]; PAdd [1]; PProc [1]; PReorg [1]; PProc [1]; PAdd [0; 1]; PProc [0]; PAdd [0]; PReorg [0; 1]; PProc [0]; PProc [1]])
+  = [[0; 0]; [2]; [0; 0]; []; [0; 0]; [0; 2]; [1; 1]; [1]; []; [1; 1]; [0; 0]].
+Proof. vm_compute. reflexivity. Qed.
